@@ -15,6 +15,7 @@ is C16, their consistency across blocks is checked here).
 from __future__ import annotations
 
 import math
+import os
 from collections import Counter
 
 import shim  # noqa: F401
@@ -165,11 +166,58 @@ def _traj_obs(tdf):
 ACCESSORS = {"tnuc": "nucleationTimes", "Tnuc": "nucleationTemperatures", "tsol": "solidificationTimes"}
 
 
-def _fall(case):
+def _arr_config(arr):
+    """custom YAML selecting the vial arrangement (written under .cache/, git-ignored)"""
+    if not arr:
+        return None
+    d = core.VERIF / ".cache" / "c17"
+    d.mkdir(parents=True, exist_ok=True)
+    p = d / f"{arr}.yaml"
+    text = f"snowfall_parameters:\n  vial_arrangement: {arr}\n"
+    if not p.exists() or p.read_text() != text:
+        tmp = d / f"{arr}.{os.getpid()}.tmp"
+        tmp.write_text(text)
+        os.replace(tmp, p)
+    return str(p)
+
+
+def _mk_fall(case, arr):
     from ethz_snow.snowfall import Snowfall
 
-    F = Snowfall(Nrep=case["nrep"], pool_size=case["pool"], k=dict(K), N_vials=tuple(case["nv"]), dt=case["dt"],
-                 opcond=_opcond((case["ncols"] - 1) * case["dt"]))
+    kw = {"configPath": _arr_config(arr)} if arr else {}
+    return Snowfall(Nrep=case["nrep"], pool_size=case["pool"], k=dict(K), N_vials=tuple(case["nv"]), dt=case["dt"],
+                    opcond=_opcond((case["ncols"] - 1) * case["dt"]), **kw)
+
+
+def _ask(F, queries):
+    ans, sels = [], []
+    for q in queries:
+        kw = {}
+        tup = (lambda x: tuple(x) if q.get("tuple") and isinstance(x, list) else x)
+        if q["groups"] != "all":
+            kw["group"] = tup(q["groups"])
+        if q["seeds"] is not None:
+            kw["seed"] = tup(q["seeds"])
+        # the vials the group argument selects: input of the model (its meaning is C16)
+        try:
+            sels.append(None if q["groups"] == "all" else
+                        [int(i) for i in np.where(F.Sf_template.getVialGroup(kw["group"]))[0]])
+        except Exception as e:
+            sels.append({"raise": core.exc_class(e)})
+        try:
+            ans.append([_b(x) for x in getattr(F, ACCESSORS[q["what"]])(**kw)])
+        except Exception as e:
+            ans.append({"raise": core.exc_class(e)})
+    return ans, sels
+
+
+def _fall(case):
+    if case.get("decoy_arr") and not case.get("norun"):
+        # ANOTHER Snowfall of this process: same shape, other vial arrangement, asked the same questions before
+        D = _mk_fall(case, case["decoy_arr"])
+        D.run(how="sequential")
+        _ask(D, case["queries"])
+    F = _mk_fall(case, case.get("arr"))
     obs = {}
     if case.get("norun"):
         try:
@@ -190,27 +238,12 @@ def _fall(case):
     obs["cols"] = [str(c) for c in df.columns]
     obs["rows"] = [[str(g), int(v), str(var), _b(val), int(s)]
                    for g, v, var, val, s in zip(df["group"], df["vial"], df["variable"], df["value"], df["seed"])]
-    ans, sels = [], []
-    for q in case["queries"]:
-        kw = {}
-        tup = (lambda x: tuple(x) if q.get("tuple") and isinstance(x, list) else x)
-        if q["groups"] != "all":
-            kw["group"] = tup(q["groups"])
-        if q["seeds"] is not None:
-            kw["seed"] = tup(q["seeds"])
-        # the vials the group argument selects: input of the model (its meaning is C16)
-        try:
-            sels.append(None if q["groups"] == "all" else
-                        [int(i) for i in np.where(F.Sf_template.getVialGroup(kw["group"]))[0]])
-        except Exception as e:
-            sels.append({"raise": core.exc_class(e)})
-        try:
-            ans.append([_b(x) for x in getattr(F, ACCESSORS[q["what"]])(**kw)])
-        except Exception as e:
-            ans.append({"raise": core.exc_class(e)})
-    obs["answers"] = ans
-    obs["vialsel"] = sels
+    obs["answers"], obs["vialsel"] = _ask(F, case["queries"])
     obs["template_clean"] = (F.Sf_template.stats == dict()) and F.Sf_template._simulationStatus == 0
+    if case.get("repoint"):
+        # the template is pointed to another arrangement: the same questions now select other vials
+        F.Sf_template.configPath = _arr_config(case["repoint"])
+        obs["answers2"], obs["vialsel2"] = _ask(F, case["queries"])
     return obs
 
 
@@ -432,6 +465,19 @@ def compare(case, impl, model):
                 dis.append(f"accessor {q}: impl {len(a)} values vs model {len(b)} values")
         if not impl["template_clean"]:
             dis.append("Snowfall.to_frame left the template's stats / status modified")
+        if "answers2" in impl:
+            qs2 = [{"what": q["what"], **({} if not isinstance(sel, list) else {"vials": sel}),
+                    **({} if q["seeds"] is None else {"seeds": q["seeds"] if isinstance(q["seeds"], list) else [q["seeds"]]})}
+                   for q, sel in zip(case["queries"], impl["vialsel2"])]
+            r2 = drv.call({"op": "c17_fall", "labels": labels, "statsList": impl["statsList"], "queries": qs2})
+            for q, a, b, sel in zip(case["queries"], impl["answers2"], r2["answers"], impl["vialsel2"]):
+                if isinstance(sel, dict):
+                    if a != sel:
+                        dis.append(f"accessor {q} after re-pointing the template: getVialGroup raises {sel['raise']}, accessor does not")
+                elif isinstance(a, dict):
+                    dis.append(f"accessor {q} after re-pointing the template: impl raised {a['raise']}")
+                elif sorted(a) != sorted(b):
+                    dis.append(f"accessor {q} after re-pointing the template to {case['repoint']}: impl {len(a)} values vs model {len(b)} values")
     return dis
 
 
@@ -591,7 +637,11 @@ def predicates(case, impl):
                 break
         if ok:
             var = {"tnuc": "t_nucleation", "Tnuc": "T_nucleation", "tsol": "t_solidification"}
-            for q, a, sel in zip(case["queries"], impl["answers"], impl["vialsel"]):
+            rounds = list(zip(case["queries"], impl["answers"], impl["vialsel"], ["" for _ in case["queries"]]))
+            if "answers2" in impl:
+                rounds += list(zip(case["queries"], impl["answers2"], impl["vialsel2"],
+                                   [f" (template re-pointed to {case['repoint']})" for _ in case["queries"]]))
+            for q, a, sel, when in rounds:
                 if isinstance(sel, dict):
                     continue  # unknown group name: rejected by getVialGroup (C16's subject)
                 if isinstance(a, dict):
@@ -607,7 +657,8 @@ def predicates(case, impl):
                     want += [x for v, x in enumerate(vals) if sel is None or v in sel]
                 if sorted(want) != sorted(a):
                     out.append(Failure(clause="accessors_exact", key=f"accessors_exact|Snowfall.{ACCESSORS[q['what']]}|values",
-                                       detail=f"{q}: {len(a)} values returned, {len(want)} rows match"))
+                                       detail=f"{q}{when}: {len(a)} values returned, {len(want)} rows match the vials "
+                                              f"getVialGroup selects (arrangement {case.get('arr') or 'square'}, decoy {case.get('decoy_arr')})"))
     return out
 
 
@@ -630,7 +681,11 @@ def classify(case, impl):
         if isinstance(impl.get("frame"), dict):
             tags.append("to_frame raises " + impl["frame"]["raise"])
     else:
-        tags += [f"nrep={case['nrep']}", f"how={case['how']}"]
+        tags += [f"nrep={case['nrep']}", f"how={case['how']}", f"arr={case.get('arr') or 'square'}"]
+        if case.get("decoy_arr"):
+            tags.append(f"after a {case['decoy_arr']} Snowfall of the same shape")
+        if case.get("repoint"):
+            tags.append("template re-pointed")
     return tags
 
 
@@ -722,6 +777,18 @@ def cases(rng, tier):
     yield dict(kind="flake", nv=[2, 2, 1], store="all", ncols=5, n=3, dt=1, norun=True)
     yield dict(kind="fall", nv=[2, 2, 1], nrep=2, pool=1, ncols=5, dt=1, how="sequential", queries=[], norun=True)
     yield from _fallhists(rng, quick)
+    # two Snowfall objects of one process with the same shape and different vial arrangements, asked the same
+    # questions; a template re-pointed to the other arrangement
+    gq = [dict(what=w, groups=g, seeds=None) for w, g in (("tnuc", "corner"), ("Tnuc", "edge"), ("tsol", "core"),
+                                                        ("tnuc", ["corner", "edge"]), ("tnuc", "side"))]
+    for nv in ([3, 3, 1], [4, 3, 1]) if quick else ([3, 3, 1], [4, 3, 1], [3, 4, 1], [5, 5, 1], [3, 3, 2]):
+        for arr, decoy in (("hexagonal", "square"), (None, "hexagonal"), ("hexagonal", None)):
+            yield dict(kind="fall", nv=nv, nrep=2, pool=2, ncols=60, dt=1, how=rng.choice(["sequential", "async"]),
+                       queries=gq, arr=arr, decoy_arr=decoy)
+        yield dict(kind="fall", nv=nv, nrep=2, pool=2, ncols=60, dt=1, how="sequential", queries=gq, arr=None,
+                   repoint="hexagonal")
+        yield dict(kind="fall", nv=nv, nrep=2, pool=2, ncols=60, dt=1, how="sequential", queries=gq, arr="hexagonal",
+                   repoint="square")
     # Snowfall tables and accessors
     for nrep in (1, 2, 5):
         for how in ("sequential", "async", "sync"):
